@@ -171,6 +171,7 @@ pub fn run_hdr(o: &Opts) {
 // C05tp: transport-parameter sets, put_parameters then parse_from_bytes
 // ------------------------------------------------------------------------------------------------
 use std::{net::{IpAddr, Ipv4Addr, Ipv6Addr, SocketAddr, SocketAddrV4, SocketAddrV6}, time::Duration};
+#[allow(unused_imports)] use std::net as _net;
 
 use qbase::{
     net::{Family, addr::{EndpointAddr, WriteEndpointAddr, be_endpoint_addr}, route::{Link, WriteLink, be_link}},
@@ -215,9 +216,10 @@ fn show_val(v: &ParameterValue) -> String {
 
 fn gen_pref(r: &mut Rng) -> PreferredAddress {
     let c = cid(r);
-    PreferredAddress::new(SocketAddrV4::new(Ipv4Addr::from(r.next_u64() as u32), r.next_u64() as u16),
-        SocketAddrV6::new(Ipv6Addr::from(((r.next_u64() as u128) << 64) | r.next_u64() as u128), r.next_u64() as u16, 0, 0),
-        c, ResetToken::new(&r.bytes(16)))
+    let tok = match r.below(4) { 0 => vec![0u8; 16], 1 => vec![0xffu8; 16], _ => r.bytes(16) };
+    PreferredAddress::new(SocketAddrV4::new(Ipv4Addr::from(ip4_special(r)), port_special(r)),
+        SocketAddrV6::new(Ipv6Addr::from(ip6_special(r).0), port_special(r), 0, 0),
+        c, ResetToken::new(&tok))
 }
 
 fn gen_tp_value(r: &mut Rng, ty: char, lo: u64, hi: u64) -> ParameterValue {
@@ -336,20 +338,7 @@ pub fn run_tp(o: &Opts) {
 // ------------------------------------------------------------------------------------------------
 // C05addr: EndpointAddr, Link, PreferredAddress
 // ------------------------------------------------------------------------------------------------
-fn sock(r: &mut Rng, v6: bool) -> SocketAddr {
-    let rp = r.next_u64() as u16;
-    let port = *r.pick(&[0u16, 1, 255, 256, 443, 65535, rp]);
-    if v6 {
-        let ip = match r.below(4) { 0 => 0u128, 1 => u128::MAX, 2 => 1, _ => ((r.next_u64() as u128) << 64) | r.next_u64() as u128 };
-        SocketAddr::new(IpAddr::V6(Ipv6Addr::from(ip)), port)
-    } else {
-        let ip = match r.below(4) { 0 => 0u32, 1 => u32::MAX, 2 => 0x7f000001, _ => r.next_u64() as u32 };
-        SocketAddr::new(IpAddr::V4(Ipv4Addr::from(ip)), port)
-    }
-}
-fn show_sock(a: &SocketAddr) -> String {
-    match a.ip() { IpAddr::V4(ip) => format!("4:{}:{}", u32::from(ip), a.port()), IpAddr::V6(ip) => format!("6:{}:{}", u128::from(ip), a.port()) }
-}
+use crate::registry::c05::{ip4_special, ip6_special, port_special, show_sock, sock_c};
 fn show_ep(e: &EndpointAddr) -> String {
     match e { EndpointAddr::Direct { addr } => format!("D {}", show_sock(addr)), EndpointAddr::Agent { agent, outer } => format!("A {} {}", show_sock(agent), show_sock(outer)) }
 }
@@ -384,7 +373,8 @@ fn addr_case(r: &mut Rng, sink: &mut Sink) {
         0 => {
             let v6 = r.chance(1, 2);
             let mixed = r.chance(1, 12);
-            let e = if r.chance(1, 2) { EndpointAddr::direct(sock(r, v6)) } else { EndpointAddr::with_agent(sock(r, v6), sock(r, v6 != mixed)) };
+            let (a1, c1) = sock_c(r, v6); let (a2, c2) = sock_c(r, v6 != mixed); sink.branch(&format!("addr:{}", c1));
+            let e = if r.chance(1, 2) { EndpointAddr::direct(a1) } else { sink.branch(&format!("addr:{}", c2)); EndpointAddr::with_agent(a1, a2) };
             let is_agent = matches!(e, EndpointAddr::Agent { .. });
             let wf = !(is_agent && mixed);
             let relay = if r.chance(7, 8) { is_agent as u8 } else { r.below(3) as u8 };
@@ -406,7 +396,7 @@ fn addr_case(r: &mut Rng, sink: &mut Sink) {
                 sink.nontrivial();
                 match size { Ok(s) if s == bytes.len() => {}, Ok(s) => sink.monitor_fail("asize:ENDPOINT", &format!("EndpointAddr wrote {} bytes, encoding_size {}: {}", bytes.len(), s, show_ep(&e))), Err(m) => sink.monitor_fail("panic:ENDPOINT", &format!("encoding_size panicked on a same-family endpoint: {}", m)) }
                 if relay == is_agent as u8 && fam6 == v6 {
-                    match val { Some((u, g)) if g == e && u == bytes.len() => {}, _ => sink.monitor_fail("aroundtrip:ENDPOINT", &format!("EndpointAddr does not round-trip: {} -> {}", show_ep(&e), d)) }
+                    match val { Some((u, g)) if (g == e || show_ep(&g) == show_ep(&e)) && u == bytes.len() => {}, _ => sink.monitor_fail("aroundtrip:ENDPOINT", &format!("EndpointAddr does not round-trip: {} -> {}", show_ep(&e), d)) }
                 }
             }
             let m = mutate(r, &bytes);
@@ -417,7 +407,8 @@ fn addr_case(r: &mut Rng, sink: &mut Sink) {
         1 => {
             let v6 = r.chance(1, 2);
             let mixed = r.chance(1, 12);
-            let l = Link::new(sock(r, v6), sock(r, v6 != mixed));
+            let (a1, c1) = sock_c(r, v6); let (a2, c2) = sock_c(r, v6 != mixed); sink.branch(&format!("addr:{}", c1)); sink.branch(&format!("addr:{}", c2));
+            let l = Link::new(a1, a2);
             let op = format!("ln {} {}", hex(&tail), show_link(&l));
             sink.pending(&op);
             let mut bytes: Vec<u8> = vec![];
@@ -431,7 +422,7 @@ fn addr_case(r: &mut Rng, sink: &mut Sink) {
             if size > max { sink.monitor_fail("amax:LINK", &format!("Link encoding_size {} > max {}", size, max)); }
             if !mixed {
                 sink.nontrivial();
-                match val { Some((u, g)) if g == l && u == bytes.len() => {}, _ => sink.monitor_fail("aroundtrip:LINK", &format!("Link does not round-trip: {} -> {}", show_link(&l), d)) }
+                match val { Some((u, g)) if (g == l || show_link(&g) == show_link(&l)) && u == bytes.len() => {}, _ => sink.monitor_fail("aroundtrip:LINK", &format!("Link does not round-trip: {} -> {}", show_link(&l), d)) }
             }
             let m = mutate(r, &bytes);
             let op = format!("lnd {}", hex(&m));
